@@ -14,6 +14,24 @@ mod unit;
 
 pub(crate) use formatting_style::FormattingStyle;
 
+/// Crate-internal re-exports of otherwise module-private number types, used
+/// only by the read-only verification hooks (`crate::verif_hooks`).
+#[cfg(feature = "verif-hooks")]
+#[allow(unused_imports)]
+pub(crate) mod verif_access {
+	pub(crate) use super::base::Base;
+	pub(crate) use super::bigrat::{BigRat, FormatOptions as BigRatFormatOptions, FormattedBigRat};
+	pub(crate) use super::biguint::{
+		BigUint, FormatOptions as BigUintFormatOptions, FormattedBigUint,
+	};
+	pub(crate) use super::complex::Complex;
+	pub(crate) use super::dist::Dist;
+	pub(crate) use super::exact::Exact;
+	pub(crate) use super::formatting_style::FormattingStyle;
+	pub(crate) use super::real::{Pattern, Real};
+	pub(crate) use super::unit::Value as UnitValue;
+}
+
 use crate::error::FendError;
 
 pub(crate) type Number = unit::Value;
